@@ -113,6 +113,46 @@ def openAliased (dt : DT) (A : Img Int) (sup : List (List Int × Int)) (out : Ar
 def closeAliased (dt : DT) (A : Img Int) (sup : List (List Int × Int)) (out : Array Int) : Array Int :=
   erodeInPlace dt A.shape sup (dilateInto dt A sup out)
 
+/-! ### `subm(a, b, out=…)` as a buffer program (`morph.py`: `out = _get_output(a, out)`; `if out is not a: out[:] = a`;
+`_morph.subm(out, b)` — the C++ loop works **in place** on its first argument, one cell at a time) -/
+
+/-- `_morph.subm(out, b)` with `out` and `b` distinct memory: cell `i` becomes `subm(out[i], b[i])` -/
+def submInPlace (dt : DT) (out b : Array Int) : Array Int :=
+  (List.range out.size).foldl (fun o i => o.setIfInBounds i (submElem dt (o.getD i 0) (b.getD i 0))) out
+
+/-- `_morph.subm(out, out)`: both iterators walk the same memory -/
+def submInPlaceSelf (dt : DT) (out : Array Int) : Array Int :=
+  (List.range out.size).foldl (fun o i => o.setIfInBounds i (submElem dt (o.getD i 0) (o.getD i 0))) out
+
+/-- `out[:] = a` -/
+def copyInto (out a : Array Int) : Array Int :=
+  (List.range out.size).foldl (fun o i => o.setIfInBounds i (a.getD i 0)) out
+
+/-- what `out=` names: nothing / a separate buffer with arbitrary contents, the first operand, the second operand -/
+inductive OutArg where
+  | fresh (buf : Array Int)
+  | aliasA
+  | aliasB
+
+/-- `morph.subm(a, b, out)` as it is since fix e250a86: when `out` shares memory with `b` the subtrahend is copied
+    **before** `out` is overwritten with `a` -/
+def submBuf (dt : DT) (a b : Array Int) : OutArg → Array Int
+  | .aliasA => submInPlace dt a b
+  | .fresh buf => submInPlace dt (copyInto buf a) b
+  | .aliasB => submInPlace dt (copyInto b a) b          -- `b = b.copy()` first: the loop still reads the old `b`
+
+/-- the wrapper before the fix: with `out=b`, `out[:] = a` destroyed `b` and the loop subtracted the buffer from itself -/
+def submBufUnfixed (dt : DT) (a b : Array Int) : OutArg → Array Int
+  | .aliasB => submInPlaceSelf dt (copyInto b a)
+  | o => submBuf dt a b o
+
+/-- the seeded numpy "fast path" for unsigned operands, `np.subtract(a, b, out=out); out[out > a] = 0`, run with
+    `out=a`: the underflow mask is computed after `a` has been overwritten (so it is empty) -/
+def submMaskAfter (dt : DT) (a b : Array Int) : Array Int :=
+  let diff := (List.range a.size).foldl (fun o i => o.setIfInBounds i (dt.wrap (o.getD i 0 - b.getD i 0))) a
+  -- `a` *is* `diff` now: `diff > a` is false everywhere
+  (List.range diff.size).foldl (fun o i => if o.getD i 0 > diff.getD i 0 then o.setIfInBounds i 0 else o) diff
+
 /-- largest height of a member of the element (0 for an empty one) -/
 def maxHeight (dt : DT) (sup : List (List Int × Int)) : Int :=
   (sup.filter (isMember dt)).foldl (fun m kh => max m kh.2) 0
@@ -132,7 +172,15 @@ def handle (a : Args) : String :=
     let ys := a.ints "b"
     let model := List.zipWith (submElem dt) xs ys
     let spec := List.zipWith (fun x y => dt.clamp (x - y)) xs ys
-    s!"model={showInts model} spec={showInts spec}"
+    let prog :=
+      if a.has "outmode" then
+        let arg := match a.str "outmode" with
+          | "alias-a" => OutArg.aliasA
+          | "alias-b" => OutArg.aliasB
+          | _ => OutArg.fresh (a.ints "buf").toArray
+        s!" prog={showInts (submBuf dt xs.toArray ys.toArray arg).toList}"
+      else ""
+    s!"model={showInts model} spec={showInts spec}{prog}"
   | "ops" =>
     let shape := a.nats "shape"
     let f : Img Int := { shape := shape, data := (a.ints "f").toArray }
